@@ -641,6 +641,79 @@ impl History {
         }
     }
 
+    /// The same kind of history through the top-level registry functions (what the WASM bridge calls): two ids
+    /// of different languages, adds (ids may repeat), limits, hostile markers, searches, reads of the result
+    /// buffer, destroy and re-create. Crash-only; every read is traced for the build comparison.
+    fn c01_registry(&self, cx: &mut Cx, lang: &'static str) {
+        let corpus = corpus_recs();
+        let base = (cx.idx as usize + 2_000_000) * 4;
+        let ids = [base, base + 1];
+        let langs: [&'static str; 2] = [lang, LANGS[((cx.idx / NL + 1) % NL) as usize]];
+        let mut live = [false, false];
+        let mut titles: Vec<String> = vec![];
+        let mut shown: Vec<String> = vec![];
+        let nops = cx.rng.range(6, 30);
+        for _ in 0..nops {
+            let k = cx.rng.below(2);
+            let (id, l) = (ids[k], langs[k]);
+            if !live[k] {
+                shown.push(format!("create({}, {})", id, l));
+                create_store(id, take_lang(l));
+                live[k] = true;
+                continue;
+            }
+            match cx.rng.below(12) {
+                0 => {
+                    shown.push(format!("destroy({})", id));
+                    cx.ctx(format!("C01 registry history={:?}", shown));
+                    destroy_store(id);
+                    live[k] = false;
+                }
+                1 | 2 | 3 | 4 => {
+                    let t = c01_title(&mut cx.rng, l, &corpus);
+                    let rid = if cx.rng.chance(1, 6) { 1 } else { cx.rng.below(50) };
+                    let r = cx.rng.below(1usize << 31);
+                    shown.push(format!("add({},{},{:?},{})", id, rid, t, r));
+                    cx.ctx(format!("C01 registry history={:?}", shown));
+                    add_record(id, rid, &t, r);
+                    titles.push(t);
+                }
+                5 | 6 => {
+                    let lim = gen::rand_limit(&mut cx.rng);
+                    shown.push(format!("limit({},{})", id, lim));
+                    cx.ctx(format!("C01 registry history={:?}", shown));
+                    set_limit(id, lim);
+                    cx.count("registry: limit changes");
+                }
+                7 => {
+                    let (a, b) = (gen::hostile(&mut cx.rng, 3), gen::hostile(&mut cx.rng, 3));
+                    shown.push(format!("markers({},{:?},{:?})", id, a, b));
+                    cx.ctx(format!("C01 registry history={:?}", shown));
+                    highlight_with(id, (&a, &b));
+                }
+                _ => {
+                    let q = with_lang(l, |lo| c01_query(&mut cx.rng, l, lo, &titles));
+                    shown.push(format!("search({},{:?})", id, q));
+                    cx.ctx(format!("C01 registry history={:?}", shown));
+                    run_search(id, &q);
+                    let hits: Hits = using_results(id, |b| b.iter().map(|r| (r.id, r.title.clone())).collect());
+                    cx.eval();
+                    cx.trace_hits(&hits);
+                    cx.count("registry: searches");
+                    if !hits.is_empty() {
+                        cx.count("registry: searches with hits");
+                    }
+                }
+            }
+        }
+        for k in 0..2 {
+            if live[k] {
+                destroy_store(ids[k]);
+            }
+        }
+        cx.key(hstr(&format!("registry{:?}", shown)));
+    }
+
     fn c01_corpus(&self, cx: &mut Cx, lang: &'static str) {
         with_corpus_store(lang, |st, recs| {
             for _ in 0..20 {
@@ -889,6 +962,7 @@ impl Prop for History {
                 Stream::new("long", 800, 8000).asan(800),
                 Stream::new("corpus", 64, 1600).asan(64),
                 Stream::new("soak", 16, 64).asan(4),
+                Stream::new("registry", 4000, 120000).asan(4000),
             ],
             Which::NoStale => vec![Stream::new("random", 48000, 2400000).miri(12), Stream::new("exhaustive", NL * 81, NL * 81).miri(0), Stream::new("soak", 16, 64)],
             Which::Registry => vec![Stream::new("core", 16000, 800000).miri(8), Stream::new("bridge", 4000, 200000).miri(4)],
@@ -896,7 +970,7 @@ impl Prop for History {
     }
     fn floors(&self) -> Vec<(&'static str, u64, u64)> {
         match self.0 {
-            Which::NoCrash => vec![("searches", 20000, 200000), ("searches with hits", 5000, 50000), ("joined-record hits (two spans from a one-word query)", 50, 500), ("non-ASCII queries", 2000, 20000), ("limit 0", 200, 2000), ("limit 65536", 200, 2000), ("histories with boundary-value record ids", 2000, 20000), ("long-text searches", 500, 5000), ("long-text searches with a query over 255 characters", 100, 1000), ("corpus-store searches", 300, 3000), ("long-text cases with a giant word or a 1000+ word title", 20, 200), ("soak searches on one store", 600000, 2500000), ("most searches on one store max ", 66000, 66000), ("soak stores with more than 2^16 records", 2, 8), ("adds re-using the id of an earlier record", 5000, 50000)],
+            Which::NoCrash => vec![("searches", 20000, 200000), ("searches with hits", 5000, 50000), ("joined-record hits (two spans from a one-word query)", 50, 500), ("non-ASCII queries", 2000, 20000), ("limit 0", 200, 2000), ("limit 65536", 200, 2000), ("histories with boundary-value record ids", 2000, 20000), ("long-text searches", 500, 5000), ("long-text searches with a query over 255 characters", 100, 1000), ("corpus-store searches", 300, 3000), ("long-text cases with a giant word or a 1000+ word title", 20, 200), ("soak searches on one store", 600000, 2500000), ("most searches on one store max ", 66000, 66000), ("soak stores with more than 2^16 records", 2, 8), ("adds re-using the id of an earlier record", 5000, 50000), ("registry: searches", 10000, 300000), ("registry: searches with hits", 1500, 45000), ("registry: limit changes", 5000, 150000)],
             Which::NoStale => vec![("search after add following an earlier search", 2000, 20000), ("search after clear following an earlier search", 500, 5000), ("search after limit following an earlier search", 500, 5000), ("empty-query search after a mutation following an earlier search", 1000, 10000), ("exhaustive histories", 20000, 200000), ("histories on a crowded store", 2000, 20000), ("histories that clear and refill a crowded store", 2000, 20000), ("histories growing a store past 64/128/256/512 records with searches in between", 200, 5000), ("histories growing a store past 1024 records with searches in between", 60, 1500), ("soak searches on one store", 1000000, 4000000), ("search repeating the previous query after a mutation", 2000, 20000), ("operations on another store of the same thread inside a history", 3000, 30000), ("registry-driven searches compared with a fresh store", 5000, 50000), ("adds re-using the id of an earlier record", 3000, 30000), ("histories whose searches run on other threads than the adds (the store is moved there and back)", 1500, 15000)],
             Which::Registry => vec![("observations", 20000, 200000), ("observations with >= 2 live ids holding results", 2000, 20000), ("destroy", 300, 3000), ("searches", 3000, 30000), ("histories over 4-20 store ids", 1000, 10000), ("bursts of 45-120 records", 300, 3000), ("stores created with another language than their neighbours", 3000, 30000), ("searches repeating the text just sent to another id", 2000, 20000), ("histories whose result buffers are read only now and then", 5000, 50000)],
         }
@@ -906,6 +980,7 @@ impl Prop for History {
         match (self.0, stream) {
             (Which::NoCrash, "hist") => self.c01_case(cx, lang),
             (Which::NoCrash, "long") => self.c01_long(cx, lang),
+            (Which::NoCrash, "registry") => self.c01_registry(cx, lang),
             (Which::NoCrash, "soak") => self.c01_soak(cx, lang),
             (Which::NoStale, "soak") => c10_soak(cx, lang),
             (Which::NoCrash, "corpus") => self.c01_corpus(cx, if idx % 2 == 0 { "en" } else { "none" }),
